@@ -819,9 +819,9 @@ def gen_cases(quick):
                     cases.append({'fam': 'repro', 'nt': nt, 'shapes': pool[:n], 'fits': list(fits), 'p': k / n if n != 3 else [0.34, 0.67, 1.0][k - 1],
                                   'k': k, 'picks': pk[:2 * k]})
     # whole GP runs
-    for i in range(6 if quick else 120):
+    for i in range(10 if quick else 300):
         n_trees = r.randint(3, 6)
-        iters = r.randint(2, 4) if quick else r.randint(4, 12)
+        iters = r.randint(2, 4) if quick else r.randint(6, 20)
         fs = r.sample(range(10), r.randint(1, 4))
         mn = r.randint(1, 2)
         mx = mn + r.randint(1, 2)
